@@ -102,6 +102,8 @@ type cfgKnownAcq struct {
 type config struct {
 	// WriteAfterPublish is the reviewed baseline of write-after-publish rows.
 	WriteAfterPublish []cfgPub `json:"write_after_publish"`
+	// GuardedEscape is the reviewed baseline of guarded-escape rows.
+	GuardedEscape []cfgEsc `json:"guarded_escape"`
 	// CheckThenAct is the reviewed baseline of check-then-act rows.
 	CheckThenAct []cfgCTA `json:"check_then_act"`
 	// ChannelOps is the reviewed table of blocking channel operations under locks.
